@@ -1,7 +1,9 @@
 import AITB.Model.Proto
 import AITB.Model.Sampling
 import AITB.Model.SamplingModels
+import AITB.Model.SamplingChain
 import AITB.Gen.C08Variant
+import AITB.Gen.C08Engines
 open AITB AITB.Sampling
 
 namespace DrvC08
@@ -59,6 +61,8 @@ def sparseOne (comp : String) (n : Nat) (row rest : List (Nat × Rat)) (v : Verd
   let allv := vals ++ rest.map (·.2)
   if !exact && decide (bpMargin allv u < tolCmp) then { v with tag := "illc" } else
   let m := sampleSparseImpl n row rest u
+  -- assumption of the theorems (Eigen row-major storage): the iterator visits the stored columns in ascending order
+  let v := v.diffIf (!((row.zip (row.drop 1)).all (fun (a, b) => decide (a.1 < b.1)))) s!"{comp} stored_columns_not_ascending {row.map (·.1)}"
   let v := match posOf row r with
     | none => v.failIf true s!"{comp} outside_support column={r} u={ratStr u} rowsum={ratStr vals.sum}"
     | some k =>
@@ -100,16 +104,138 @@ def proj : P String := do
   let v := v.diffIf (!(closeL (projectImpl vin) out)) s!"{comp} branch={br} model={(projectImpl vin).map ratStr} impl={out.map ratStr}"
   return v.render
 
-/-- `isprob v… | template dense sparse` : the three `isProbability` overloads on one row (model tie only) -/
+/-- stored entries of a dense row as a compressed sparse matrix holds them (zeros are not stored; an explicitly
+    stored zero changes nothing in `isProbability`) -/
+def storedOf (l : List Rat) : List (Nat × Rat) := ((List.range l.length).zip l).filter (fun e => e.2 != 0)
+
+/-- the property-level reading of "accepted by isProbability": no negative entry, |sum - 1| ≤ 1e-6 — with a
+    conditioning margin: `some true` = valid with margin, `some false` = invalid with margin, `none` = too close to call -/
+def propTol : Rat := 1 / 1000000     -- the property's own number: "row sums in [1-1e-6, 1+1e-6]" (not read from the source)
+def rowVerdict (l : List Rat) : Option Bool :=
+  if l.any (fun x => decide (x < 0)) then some false
+  else if decide (absQ (absQ (l.sum - 1) - propTol) < tolCmp) then none
+  else some (decide (absQ (l.sum - 1) ≤ propTol))
+
+def tableVerdict (rows : List (List Rat)) : Option Bool :=
+  let vs := rows.map rowVerdict
+  if vs.any (· == some false) then some false else if vs.any (· == none) then none else some true
+
+/-- clause on one overload's answer: it must be the property-level verdict -/
+def isprobClause (comp what : String) (expect impl : Bool) (v : Verdict) : Verdict :=
+  (v.failIf (impl && !expect) s!"{comp} accepts_invalid overload={what}").failIf (!impl && expect) s!"{comp} rejects_valid overload={what}"
+
+/-- `isprob v… | template dense sparse` : the three `isProbability` overloads on one row -/
 def isprob : P String := do
   let l ← P.qs; P.bar; let t ← P.bool; let md ← P.bool; let ms ← P.bool; P.eof
   let comp := "isProbability"
-  let absSum := (l.map absQ).sum
-  if decide (probMargin l < tolCmp) || decide (absQ (absQ (absSum - 1) - Gen.equalToleranceSmall) < tolCmp) then return "skip ill_conditioned" else
+  match rowVerdict l with
+  | none => return "skip ill_conditioned"
+  | some e =>
   let v : Verdict := { tag := if isProb l then "isprob-accept" else "isprob-reject" }
+  let v := isprobClause comp "template" e t v
+  let v := isprobClause comp "Matrix2D" e md v
+  let v := isprobClause comp "SparseMatrix2D" e ms v
   let v := v.diffIf (isProb l != t) s!"{comp} template model={isProb l} impl={t}"
-  let v := v.diffIf (isProb l != md) s!"{comp} Matrix2D model={isProb l} impl={md}"
-  let v := v.diffIf (isProbSparse l != ms) s!"{comp} SparseMatrix2D model={isProbSparse l} impl={ms}"
+  let v := v.diffIf (isProbMatrix2D [l] != md) s!"{comp} Matrix2D model={isProbMatrix2D [l]} impl={md}"
+  let v := v.diffIf (isProbSparse2D [storedOf l] != ms) s!"{comp} SparseMatrix2D model={isProbSparse2D [storedOf l]} impl={ms}"
+  return v.render
+
+/-- `isprobm D (R rows…)*D | t3 m3 s3 t2 m2 s2` : the 3-D overloads on the whole table (template, Matrix3D, SparseMatrix3D) and
+    the 2-D overloads on the slice holding the defective row; the slice index is not on the line: the 2-D answers are
+    checked against "some slice" only through the clause (a 2-D overload accepting while the table has no valid slice …) -/
+def isprobm : P String := do
+  let t ← P.list P.qss; P.bar
+  let t3 ← P.bool; let m3 ← P.bool; let s3 ← P.bool; let t2 ← P.bool; let m2 ← P.bool; let s2 ← P.bool; P.eof
+  let comp := "isProbability"
+  match tableVerdict t.flatten with
+  | none => return "skip ill_conditioned"
+  | some e =>
+  let v : Verdict := { tag := if e then "isprobm-accept" else "isprobm-reject" }
+  let v := isprobClause comp "template3D" e t3 v
+  let v := isprobClause comp "Matrix3D" e m3 v
+  let v := isprobClause comp "SparseMatrix3D" e s3 v
+  -- the slice the 2-D overloads were called on holds the only defective row (if any): same verdict as the table
+  let v := isprobClause comp "template2D" e t2 v
+  let v := isprobClause comp "Matrix2D" e m2 v
+  let v := isprobClause comp "SparseMatrix2D" e s2 v
+  let v := v.diffIf (isProbTable3D t != t3) s!"{comp} template3D model={isProbTable3D t} impl={t3}"
+  let v := v.diffIf (isProbMatrix3D t != m3) s!"{comp} Matrix3D model={isProbMatrix3D t} impl={m3}"
+  let v := v.diffIf (isProbSparse3D (t.map (·.map storedOf)) != s3) s!"{comp} SparseMatrix3D model={isProbSparse3D (t.map (·.map storedOf))} impl={s3}"
+  return v.render
+
+/-- `seeded <ctor> orow… us… | obs…` : the observations of a freshly built POMDP object against the draws of an
+    mt19937 seeded with the Seeder seed the object is expected to take -/
+def seeded : P String := do
+  let ctor ← P.tok; let orow ← P.qs; let us ← P.qs; P.bar; let obs ← P.nats; P.eof
+  if us.length != obs.length then P.fail
+  let v : Verdict := { tag := "seeded" }
+  let bad := (us.zip obs).filter (fun (u, o) => !(intervalSpec orow u o))
+  let v := v.failIf (!bad.isEmpty) s!"{ctor} engine_not_seeded_from_Seeder mismatches={bad.length}/{us.length} expected={us.map (sampleDense orow)} impl={obs}"
+  return v.render
+
+/-- `seededrows <ctor> rows… us… | outcomes…` : sample `i` scanned `rows[i]`; the draws are those of an mt19937 seeded with the
+    Seeder seed the object is expected to take -/
+def seededrows : P String := do
+  let ctor ← P.tok; let rows ← P.qss; let us ← P.qs; P.bar; let outs ← P.nats; P.eof
+  if us.length != outs.length || rows.length != outs.length then P.fail
+  let v : Verdict := { tag := "seeded" }
+  let cond := (rows.zip us).filter (fun (r, u) => decide (tolCmp ≤ bpMargin r u))      -- well-conditioned samples only
+  let bad := (rows.zip (us.zip outs)).filter (fun (r, u, o) => decide (tolCmp ≤ bpMargin r u) && !(intervalSpec r u o))
+  let v := v.failIf (!bad.isEmpty) s!"{ctor} engine_not_seeded_from_Seeder mismatches={bad.length}/{cond.length} impl={outs}"
+  return v.render
+
+/-- `seedvar <ctor> xs… | ys…` : a continuous posterior sample taken by two objects built under different root seeds -/
+def seedvar : P String := do
+  let ctor ← P.tok; let xs ← P.qs; P.bar; let ys ← P.qs; P.eof
+  let v : Verdict := { tag := if xs.length < 4 then "trivial" else "seedvar" }
+  let v := v.failIf (decide (4 ≤ xs.length) && xs == ys) s!"{ctor} engine_not_seeded_from_Seeder identical_posterior_sample_for_two_root_seeds entries={xs.length}"
+  return v.render
+
+def armBlock : P (List Nat × List (Rat × Rat)) := do
+  let g ← P.nats; let arms ← P.list (do let lo ← P.q; let hi ← P.q; pure (lo, hi)); pure (g, arms)
+
+/-- `fband joint|flat A… G (group… narms (lo hi)*)*G a… id us… | rews…` : Factored::Bandit::Model::sampleR / FlattenedModel::sampleR -/
+def fband : P String := do
+  let mode ← P.tok; let A ← P.nats; let blocks ← P.list armBlock; let a0 ← P.nats; let id ← P.nat; let us ← P.qs; P.bar
+  let out ← P.qs; P.eof
+  let groups := blocks.map (·.1); let arms := blocks.map (·.2)
+  if us.length != groups.length then P.fail
+  let flat := mode == "flat"
+  let comp := if flat then "Factored::Bandit::FlattenedModel::sampleR" else "Factored::Bandit::Model::sampleR"
+  let a := if flat then AITB.Factored.toFactors A id else a0
+  let v : Verdict := { tag := "fband-" ++ mode }
+  -- range safety of the arm lookup (B2/B3) on this very input
+  let v := v.failIf (!((blocks.all (fun b => decide (AITB.Factored.toIndexPartial b.1 A a < b.2.length))))) s!"{comp} arm_index_out_of_range a={a}"
+  let m := fbSampleR A groups arms a us
+  -- each group's reward lies in the support of the arm its partial action index selects and is that arm's image of the group's own draw
+  let v := if flat then
+      v.failIf (!(out.length == 1 && closeQ tolCmp (out.getD 0 0) m.sum)) s!"{comp} reward_not_from_selected_arms impl={out.map ratStr} model={ratStr m.sum}"
+    else
+      let v := v.failIf (out.length != groups.length) s!"{comp} wrong_length {out.length}"
+      (List.range groups.length).foldl (fun v i =>
+        let arm := (arms.getD i []).getD (AITB.Factored.toIndexPartial (groups.getD i []) A a) (0, 0)
+        let r := out.getD i 0
+        let v := v.failIf (!(decide (arm.1 ≤ r) && decide (r ≤ arm.2))) s!"{comp} reward_outside_arm_support group={i} r={ratStr r} arm=[{ratStr arm.1},{ratStr arm.2})"
+        v.failIf (!(closeQ tolCmp r (m.getD i 0))) s!"{comp} reward_not_from_selected_arm group={i} impl={ratStr r} model={ratStr (m.getD i 0)}") v
+  return v.render
+
+/-- `traj mdp|pomdp dense|sparse A T… Ob… s0 us… | outcomes…` : a rollout on one object; action = (sum of earlier outcomes) mod A -/
+def traj : P String := do
+  let mode ← P.tok; let kind ← P.tok; let A ← P.nat
+  let T ← P.list P.qss; let Ob ← P.list P.qss; let s0 ← P.nat; let us ← P.qs; P.bar
+  let out ← P.nats; P.eof
+  if us.length != out.length || A == 0 then P.fail
+  let comp := s!"Model::rollout-{mode}-{kind}"
+  let Tf : Nat → Nat → List Rat := fun a s => (T.getD a []).getD s []
+  let Of : Nat → Nat → List Rat := fun a s => (Ob.getD a []).getD s []
+  let pol : List Nat → Nat := fun h => h.sum % A
+  let row : List Nat → List Rat := if mode == "pomdp" then pomdpRow Tf Of pol s0 else mdpRow Tf pol s0
+  let v : Verdict := { tag := s!"traj-{mode}-{kind}" }
+  -- clause, step by step, on the row selected by the IMPLEMENTATION's own history
+  let v := (List.range out.length).foldl (fun v i =>
+    if v.tag == "illc" then v else denseOne comp (row (out.take i)) v (us.getD i 0, out.getD i 0)) v
+  let m := chainSample row us
+  let v := if v.tag == "illc" then v else v.diffIf (m != out) s!"{comp} model={m} impl={out}"
   return v.render
 
 /-- `rand draws… | out… words` -/
@@ -220,11 +346,10 @@ def sor : P String := do
   return v.render
 
 /-- `fsr rows… us… R | s1… reward` : CooperativeModel::sampleSR, one scan per state factor -/
-def fsr : P String := do
+def fsrWith (comp : String) : P String := do
   let rows ← P.qss; let us ← P.qs; let rexp ← P.q; P.bar
   let s1 ← P.nats; let rew ← P.q; P.eof
   if rows.length != us.length || rows.length != s1.length then P.fail
-  let comp := "CooperativeModel::sampleSR"
   let v : Verdict := { tag := "fsr" }
   let v := (rows.zip (us.zip s1)).foldl (fun v (row, ur) => denseOne comp row v ur) v
   let v := v.failIf (rew != rexp) s!"{comp} wrong_reward impl={ratStr rew} table={ratStr rexp}"
@@ -309,6 +434,23 @@ def coop : P String := do
     s!"{comp} model={(coopSampleSR S A parents T bases s a us).1} impl={s1}"
   return v.render
 
+/-- `trajc S… A… F (agents feats rows)*F s0… us… | outcomes…` : `CooperativeModel::sampleSR` repeated on one object (s ← s1);
+    joint action of a step: agent j plays (Σ earlier outcomes + j) mod A_j -/
+def trajc : P String := do
+  let S ← P.nats; let A ← P.nats; let blocks ← P.list parentBlock; let s0 ← P.nats; let us ← P.qs; P.bar
+  let out ← P.nats; P.eof
+  let parents := blocks.map (·.1); let T := blocks.map (·.2)
+  if us.length != out.length || parents.length == 0 || us.length % parents.length != 0 then P.fail
+  let comp := "CooperativeModel::rollout"
+  let pol : List Nat → List Nat := fun h => A.mapIdx (fun j aj => (h.sum + j) % aj)
+  let row := coopRolloutRow S A parents T pol s0
+  let v : Verdict := { tag := "traj-coop" }
+  let v := (List.range out.length).foldl (fun v i =>
+    if v.tag == "illc" then v else denseOne comp (row (out.take i)) v (us.getD i 0, out.getD i 0)) v
+  let m := chainSample row us
+  let v := if v.tag == "illc" then v else v.diffIf (m != out) s!"{comp} model={m} impl={out}"
+  return v.render
+
 def finQ? : XRat → Option Rat
   | .fin q => some q
   | _ => none
@@ -373,7 +515,8 @@ def handle (toks : List String) : String :=
     | "vsample" :: rest => P.run vsample rest
     | "sr" :: rest => P.run sr rest
     | "sor" :: rest => P.run sor rest
-    | "fsr" :: rest => P.run fsr rest
+    | "fsr" :: rest => P.run (fsrWith "CooperativeModel::sampleSR") rest
+    | "fsrml" :: rest => P.run (fsrWith "CooperativeMaximumLikelihoodModel::sampleSR") rest
     | "isprob" :: rest => P.run isprob rest
     | "spsr" :: rest => P.run spsr rest
     | "spsor" :: rest => P.run spsor rest
@@ -383,6 +526,13 @@ def handle (toks : List String) : String :=
     | "beta" :: rest => P.run beta rest
     | "projx" :: rest => P.run projx rest
     | "inst" :: rest => P.run inst rest
+    | "isprobm" :: rest => P.run isprobm rest
+    | "seeded" :: rest => P.run seeded rest
+    | "traj" :: rest => P.run traj rest
+    | "seededrows" :: rest => P.run seededrows rest
+    | "seedvar" :: rest => P.run seedvar rest
+    | "fband" :: rest => P.run fband rest
+    | "trajc" :: rest => P.run trajc rest
     | _ => none
   r.getD "bad-op"
 
